@@ -22,7 +22,7 @@ package core
 //@ func msgPool.Get
 //@   flags trusted
 //@   modifies nothing
-//@   ensures result != nil
+//@   ensures result != nil && len(result.Keys) == 0
 
 //@ func ProxyStats.ReqCmdIncr
 //@   flags trusted pure
